@@ -25,6 +25,7 @@ static const CheckDef defs[] = {
         { "C04", "solo", 6000, 120000, 100, 1500, "exploration", k_state_rule },
         { "C05", "sched", 12000, 200000, 100, 1500, "exploration", k_state_rule },
         { "C07", "guard", 30000, 600000, 100, 1500, "exploration", k_state_rule },
+        { "C13", "scrub", 6000, 100000, 100, 1500, "exploration", k_state_rule },
         { "C14", "desc", 12000, 200000, 100, 1500, "exploration", k_state_rule },
         { "C18", "cc", 12000, 200000, 100, 1500, "exploration", k_state_rule },
         { "C17", "indep", 6000, 100000, 100, 1500, "exploration", k_state_rule },
